@@ -62,13 +62,19 @@ AnnotationFails(e, dm, dv, chain) ==
                        RECURSIVE sel(_)
                        sel(S) == IF S = {} THEN << >> ELSE <<out.feats[Min(S)]>> \o sel(S \ {Min(S)})
                    IN sel(idx)
-      okInherit(k) == BagEq([i \in 1..Len(images(k)) |-> Key(images(k)[i])], [i \in 1..Len(others(k)) |-> Key(others(k)[i])])
-      okCites(k)   == BagEq([i \in 1..Len(images(k)) |-> KeyC(images(k)[i])], [i \in 1..Len(others(k)) |-> KeyC(others(k)[i])])
-      okTile(k)    == \A j \in 1..(m + 1) : Cardinality({i \in 1..Len(out.feats) : isGen(out.feats[i], j, k)}) = 1
-      cited(k)     == UNION {{images(k)[i].cites[c] : c \in 1..Len(images(k)[i].cites)} : i \in 1..Len(images(k))}
+      \* everything that depends on the alignment k is computed once per k (LET-bound values are cached by TLC)
+      Judge(k) ==
+        LET im == images(k)
+            ot == others(k)
+            ki == [i \in 1..Len(im) |-> Key(im[i])]     ko == [i \in 1..Len(ot) |-> Key(ot[i])]
+            ci == [i \in 1..Len(im) |-> KeyC(im[i])]    co == [i \in 1..Len(ot) |-> KeyC(ot[i])]
+        IN [inherit |-> BagEq(ki, ko),
+            cites   |-> BagEq(ci, co) /\ SeqToSet(out.refs) = UNION {{im[i].cites[c] : c \in 1..Len(im[i].cites)} : i \in 1..Len(im)},
+            tile    |-> \A j \in 1..(m + 1) : Cardinality({i \in 1..Len(out.feats) : isGen(out.feats[i], j, k)}) = 1]
+      judged == [k \in ks |-> Judge(k)]
   IN IF ks = {} THEN {}          \* product is not the formula: reported by C01
-     ELSE Chk("C08:FeaturesInherited", \E k \in ks : okInherit(k))
-          \cup Chk("C09:SourcesTile", \E k \in ks : okTile(k))
+     ELSE Chk("C08:FeaturesInherited", \E k \in ks : judged[k].inherit)
+          \cup Chk("C09:SourcesTile", \E k \in ks : judged[k].tile)
           \cup Chk("C09:SourcesVerbatim",
                    \A i \in 1..Len(out.feats) :
                       LET g == out.feats[i] IN
@@ -78,7 +84,7 @@ AnnotationFails(e, dm, dv, chain) ==
                                                    txt == [q \in 1..Len(ix) |-> out.seq[(IF g.parts[1].st = -1 THEN ix[Len(ix) + 1 - q] ELSE ix[q]) + 1]]
                                                IN OccursCirc(txt, x.seq))
           \cup Chk("C10:RefsOnceAndSameTarget",
-                   /\ \E k \in ks : okCites(k) /\ SeqToSet(out.refs) = cited(k)
+                   /\ \E k \in ks : judged[k].cites
                    /\ \A i, j \in 1..Len(out.refs) : i # j => out.refs[i] # out.refs[j]
                    /\ \A i \in 1..Len(out.feats) : out.feats[i].bracketed)
 
